@@ -97,9 +97,65 @@ def peps_variants(rng):
     return out
 
 
+def env_variants(rng):
+    """ environments of a small entangled PEPS after a few updates (non-trivial environment tensors, projectors, boundary MPS with info) """
+    import yastn
+    import yastn.tn.fpeps as fp
+    out = []
+    for sym in ('U1', 'Z2'):
+        ops = yastn.operators.SpinlessFermions(sym=sym)
+        ops.config.backend.random_seed(rng.randrange(1000))
+        for nm, g in (('sq_obc', fp.SquareLattice(dims=(2, 2), boundary='obc')), ('checker', fp.CheckerboardLattice())):
+            psi = fp.product_peps(g, {s: ops.vec_n((s[0] + s[1]) % 2) for s in g.sites()})
+            for b in g.bonds()[:2]:
+                psi.apply_gate_(fp.gates.gate_nn_hopping(0.5, 0.3, ops.I(), ops.c(), ops.cp(), b))
+            ctm = fp.EnvCTM(psi, init='eye')
+            ctm.update_(opts_svd={'D_total': 4, 'tol': 1e-12}, moves='hv')
+            out.append(('EnvCTM', nm, sym, ctm))
+            bp = fp.EnvBP(psi)
+            bp.iterate_(max_sweeps=2)
+            out.append(('EnvBP', nm, sym, bp))
+            if g.boundary == 'obc':
+                out.append(('EnvBMPS', nm, sym, fp.EnvBoundaryMPS(psi, opts_svd={'D_total': 8}, setup='lr')))
+    return out
+
+
+def _ket(psi):
+    return psi.ket if hasattr(psi, 'ket') else psi
+
+
+def _fields(x):
+    return [k for k in x.__dataclass_fields__]
+
+
 # ------------------------------------------------------------------ observation of an object (strict)
 def observe(kind, o, sym):
     import yastn
+    if kind in ('EnvCTM', 'EnvBP'):
+        sites = o.sites()
+
+        def tobs(t):      # logical view of an environment tensor: whether a permutation is still pending is not part of it (resolve_ops / legacy routes materialise it)
+            if t is None:
+                return None
+            d = observe('Tensor', t, sym)
+            d.pop('trans')
+            return d
+        out = {'psi': observe('Peps', _ket(o.psi), sym), 'two_layers': type(o.psi).__name__,
+               'env': [[(k, tobs(getattr(o[s], k))) for k in _fields(o[s])] for s in sites]}
+        if kind == 'EnvCTM':
+            out['proj'] = [[(k, tobs(getattr(o.proj[s], k))) for k in _fields(o.proj[s])] for s in sites]
+        else:
+            out['which'] = o.which
+        return out
+    if kind == 'EnvBMPS':
+        def mobs(v):      # boundary MPS: logical view of the site tensors (a pending permutation is materialised by the legacy route)
+            d = observe('Mps' if v.nr_phys == 1 else 'Mpo', v, sym)
+            for x in d['sites']:
+                x.pop('trans')
+            return d
+        return {'psi': observe('Peps', _ket(o.psi), sym), 'two_layers': type(o.psi).__name__,
+                'env': [(repr(k), mobs(v)) for k, v in sorted(o._env.items(), key=lambda kv: repr(kv[0]))],
+                'info': sorted((repr(k), repr(sorted(v.items()) if isinstance(v, dict) else v)) for k, v in o.info.items())}
     if kind == 'Tensor':
         # logical view, independent of whether a permutation is pending: materialised copy of the fully unfused tensor + fusion histories
         b = T.fully_unfused(o).consume_transpose()
@@ -137,6 +193,12 @@ def follow_up(kind, orig, rest):
             return 'same' if abs(x - y) <= 1e-13 * abs(x) else 'overlap %r vs %r' % (x, y)
         if kind == 'Peps':
             return 'same' if all((orig[s] - rest[s]).norm() == 0 for s in orig.geometry.sites()) and rest.geometry == orig.geometry else 'site tensors / geometry differ'
+        if kind in ('EnvCTM', 'EnvBP', 'EnvBMPS'):
+            # the restored environment measures what the original measures
+            ops = yastn.operators.SpinlessFermions(sym=_ket(orig.psi)[_ket(orig.psi).sites()[0]].config.sym.SYM_ID)
+            x, y = orig.measure_1site(ops.n()), rest.measure_1site(ops.n())
+            bad = [s for s in x if abs(complex(x[s]) - complex(y[s])) > 1e-12]
+            return 'same' if not bad and set(x) == set(y) else 'measure_1site differs at %s' % bad[:2]
     except Exception as ex:  # noqa
         return 'follow-up raised %s: %s' % (type(ex).__name__, str(ex)[:80])
 
@@ -150,15 +212,18 @@ def run_route(kind, obj, sym, ferm, steps, tmpdir):
     import warnings
     from yastn import YastnError
     cur = obj
-    cfg_same = obj.config if hasattr(obj, 'config') else obj[obj.geometry.sites()[0]].config
+    if kind in ('EnvCTM', 'EnvBP', 'EnvBMPS'):
+        cfg_same = _ket(obj.psi)[_ket(obj.psi).sites()[0]].config
+    else:
+        cfg_same = obj.config if hasattr(obj, 'config') else obj[obj.geometry.sites()[0]].config
     cfg_osym, cfg_oferm = other_cfgs(sym, ferm)
     form = 'obj'
     try:
         for st in steps:
             nm = st[0]
             if nm == 'to_dict':
-                cur = cur.to_dict(level=st[1], resolve_ops=st[2]) if kind in ('Tensor', 'Peps') else cur.to_dict(level=st[1])
-                if kind not in ('Tensor', 'Peps') and st[2]:
+                cur = cur.to_dict(level=st[1], resolve_ops=st[2]) if kind in ('Tensor', 'Peps', 'EnvCTM') else cur.to_dict(level=st[1])
+                if kind not in ('Tensor', 'Peps', 'EnvCTM') and st[2]:
                     return None       # resolve_ops is not an option of MPS.to_dict: route not applicable
                 form = 'dict'
             elif nm == 'v1_strip':
@@ -199,6 +264,8 @@ def run_route(kind, obj, sym, ferm, steps, tmpdir):
                             if cfg is None:
                                 raise YastnError('legacy format requires config')
                             cur = mps.load_from_dict(cfg, cur)
+                        elif kind in ('EnvCTM', 'EnvBP', 'EnvBMPS'):
+                            cur = {'EnvCTM': fp.EnvCTM, 'EnvBP': fp.EnvBP, 'EnvBMPS': fp.EnvBoundaryMPS}[kind].from_dict(cur, cfg)
                         else:
                             cur = fp.Peps.from_dict(cur, cfg) if cfg is not None else fp.Peps.from_dict(cur, None)
                     else:
@@ -268,15 +335,16 @@ def main(tier, seed, replay=None):
     if replay:
         rep.write_evidence = False
     rep.cov['rule'] = ('every terminal state of Serialize.tla (all routes to depth 6) x object variants: tensors (plain, complex, diagonal, hard/meta/nested fused, empty, scalar; lazily transposed '
-                       'or not; 5 symmetries), MPS (plain, central block, non-unit factor), MPO, PEPS on 7 lattice types; non-trivial = route that restored an object with >= 1 block')
+                       'or not; 5 symmetries), MPS (plain, central block, non-unit factor), MPO, PEPS on 7 lattice types, environments (EnvCTM with projectors, EnvBP, EnvBoundaryMPS after updates); non-trivial = route that restored an object with >= 1 block')
     r = tlc_ok('Serialize', 'Serialize.cfg', workers=1, timeout=900)
-    rep.add_tlc('Serialize (all routes, depth 6, 4 kinds)', r)
+    rep.add_tlc('Serialize (all routes, depth 6, 7 kinds)', r)
     cases = r.prints('CASE')
     if len(cases) < 300:
         raise Machinery('too few serialisation cases parsed: %d' % len(cases))
     rng = random.Random(seed)
     tmpdir = scratch('ser-')
     tv, mv, pv = tensor_variants(rng), mps_variants(rng), peps_variants(rng)
+    envv = env_variants(rng)
     evs = []
     skipped = 0
     frac = 0.2 if tier == 'quick' else 1.0
@@ -286,11 +354,13 @@ def main(tier, seed, replay=None):
             objs = [(v, sym, ferm, o) for v, sym, ferm, o in tv]
         elif kind in ('Mps', 'Mpo'):
             objs = [(v, sym, False, o) for k, v, sym, o in mv if k == kind]
+        elif kind in ('EnvCTM', 'EnvBP', 'EnvBMPS'):
+            objs = [(v, sym, True, o) for k, v, sym, o in envv if k == kind]
         else:
             objs = [(v, sym, True, o) for k, v, sym, o in pv]
         for variant, sym, ferm, o in objs:
             stratum = (variant, sym, steps[0][0], tuple(steps[-1]), bool(lazy0))
-            if kind == 'Tensor' and stratum in strata and rng.random() > frac:
+            if kind in ('Tensor', 'EnvCTM', 'EnvBP', 'EnvBMPS') and stratum in strata and rng.random() > frac:
                 continue          # quick: a sample, but every (variant, first step, way of restoring, lazy) combination at least once
             strata.add(stratum)
             if lazy0:
@@ -331,6 +401,18 @@ def main(tier, seed, replay=None):
                         diff.append('trans %s vs original %s' % (a['trans'], b['trans']))
                 else:
                     diff = [k for k in b if a[k] != b[k]]
+                    if steps[0][0] == 'save_to_dict' and kind == 'EnvCTM' and 'proj' in diff:
+                        diff.remove('proj')        # the deprecated format stores the environment tensors only; projectors are recomputed by every move
+                    if steps[0][0] == 'save_to_dict' and kind == 'EnvBP' and 'env' in diff:
+                        # the deprecated format stores the messages; their square roots (fields ending in R) are recomputed on loading, in another gauge
+                        strip = lambda env: [[kv for kv in site if not kv[0].endswith('R')] for site in env]
+                        if strip(a['env']) == strip(b['env']):
+                            diff.remove('env')
+                    if kind in ('EnvCTM', 'EnvBP', 'EnvBMPS') and 'psi' in diff:
+                        sd = [k for k in b['psi'] if k != 'sites' and a['psi'][k] != b['psi'][k]] + \
+                             [i for i, (x, y) in enumerate(zip(b['psi']['sites'], a['psi']['sites'])) if any(x[k] != y[k] for k in x if k != 'trans')]
+                        if not sd:
+                            diff.remove('psi')
                     if 'sites' in diff:
                         sd = [(i, [k for k in x if k != 'trans' and x[k] != y[k]]) for i, (x, y) in enumerate(zip(b['sites'], a['sites']))]
                         sd = [x for x in sd if x[1]]
@@ -384,5 +466,5 @@ def main(tier, seed, replay=None):
     rep.sample(evs[len(evs) // 2])
     rep.sample({k: (v if not isinstance(v, list) else v[:8]) for k, v in vev[0].items()})
     rep.cov['exhaustive'] = (tier == 'thorough')
-    rep.assumptions += ['environments (EnvBoundaryMPS / EnvBP / EnvCTM) and MpoPBC are not yet among the serialised kinds', 'quick tier replays a seeded 25% of (case x variant)']
+    rep.assumptions += ['MpoPBC, Peps2Layers and DoublePepsTensor are not among the serialised kinds', 'quick tier replays a seeded 25% of (case x variant)']
     return rep.finish()
